@@ -74,6 +74,7 @@ class Run:
         self.known_hits: Dict[str, int] = {}
         self.known_examples: Dict[str, str] = {}
         self.drift: List[str] = []
+        self.outside: Dict[str, int] = {}
         self.notes: List[str] = []
         self.assumptions: List[str] = []
         self.rule = ""
@@ -131,6 +132,12 @@ class Run:
                 if len(self.drift) < 50:
                     self.drift.append(v)
                 continue
+            if v.startswith("outside:"):
+                # the executed scenario left the domain the property quantifies over (decided by the trace spec):
+                # nothing is claimed and nothing is reported for it, it is only counted
+                self.outside[v[8:120]] = self.outside.get(v[8:120], 0) + 1
+                self.keys_nontrivial.discard(h)
+                continue
             if v.startswith("known:"):
                 fid = v.split(":", 2)[1]
                 if fid in self.known_open:
@@ -181,6 +188,7 @@ class Run:
             "tlc_runs": self.design_runs,
             "known_findings_reproduced": self.known_hits,
             "spec_drift": self.drift[:10],
+            "outside_property_domain": self.outside,
         }
         if self.exhaustive is not None:
             cov["exhaustive"] = self.exhaustive
